@@ -207,6 +207,10 @@ class Check:
 
     def finish(self):
         wall = time.time() - self.t0
+        if not self.samples:
+            # the evidence must show something that was actually observed: fall back to the counters the check kept (and to a violation, if any)
+            self.samples.append({'note': 'the check recorded no clean sample', 'counters': {k: v for k, v in list(self.extra.items())[:8]},
+                                 'first_violation': (self.violations[0][0] if self.violations else None)})
         cov = {
             'evaluations': int(self.evaluations),
             'distinct_nontrivial': len(self.distinct),
